@@ -443,7 +443,8 @@ pub fn valid_header_budget(rng: &mut Rng, buf: &mut Vec<u8>, vc: u8, fp: u8, sma
         buf[at..at + 12].copy_from_slice(&SIG);
     }
     let mut kind = kind;
-    if fam != 0 && kind == "wellformed" && buf.len() + 7 <= 16 + 65535 && buf.len() < 3000 && rng.chance(1, 10) {
+    // (also for the unspecified family, whose payload is opaque but may well be a TLV vector)
+    if kind == "wellformed" && buf.len() + 7 <= 16 + 65535 && buf.len() < 3000 && rng.chance(1, 10) {
         // a PP2_TYPE_CRC32C TLV carrying the correct checksum: CRC-32C of the whole header with
         // the checksum field zero (only a sender that computes it exposes a receiver that verifies
         // it over the wrong span)
